@@ -375,7 +375,22 @@ func runPongExtendsDeadline(c *Ctx) {
 			}
 			return rootObj(info, sel.X), lim, true
 		}
-		InspectNoLits(f.Body, func(m ast.Node) bool {
+		// anywhere in f, helper closures included - but not inside the handlers themselves
+		handlerLits := map[*ast.FuncLit]bool{}
+		ast.Inspect(f.Body, func(m ast.Node) bool {
+			if call, ok := m.(*ast.CallExpr); ok && len(call.Args) == 1 {
+				if sel, ok := ast.Unparen(call.Fun).(*ast.SelectorExpr); ok && (sel.Sel.Name == "SetPongHandler" || sel.Sel.Name == "SetPingHandler") {
+					if lit, ok := ast.Unparen(call.Args[0]).(*ast.FuncLit); ok {
+						handlerLits[lit] = true
+					}
+				}
+			}
+			return true
+		})
+		ast.Inspect(f.Body, func(m ast.Node) bool {
+			if lit, ok := m.(*ast.FuncLit); ok && handlerLits[lit] {
+				return false
+			}
 			if call, ok := m.(*ast.CallExpr); ok {
 				if o, lim, ok := deadlineArg(call); ok && o != nil {
 					arms = append(arms, armed{o, lim, call.Pos()})
@@ -412,8 +427,18 @@ func runPongExtendsDeadline(c *Ctx) {
 				ast.Inspect(body, func(k ast.Node) bool {
 					if c2, ok := k.(*ast.CallExpr); ok {
 						if o, lim, ok := deadlineArg(c2); ok && o == a.conn && lim == a.limit {
-							// not under a condition of its own
 							good = true
+						}
+						// through a helper closure of f
+						if h := p.CalleeInfo(info, c2); h != nil && h.Lit != nil && h.Body != nil {
+							ast.Inspect(h.Body, func(k2 ast.Node) bool {
+								if c3, ok := k2.(*ast.CallExpr); ok {
+									if o, lim, ok := deadlineArg(c3); ok && o == a.conn && lim == a.limit {
+										good = true
+									}
+								}
+								return true
+							})
 						}
 					}
 					return true
@@ -976,4 +1001,85 @@ func flagStoredAfterQuestions(p *Program, takesReader func(*FuncInfo) bool, fiel
 		})
 	}
 	return stores > 0 && stores == good
+}
+
+func init() {
+	Register(&Rule{
+		Name:  "R-EMPTY-TREE-CONFIRMED",
+		Props: []string{"C02"},
+		Min:   1,
+		Doc: "the sender reports success for a tree without files only on a confirmation it can tell from a failure (Y1/AA5, third report in round 11; known finding F81): with files the success rests on a FileDone{ok} per file; behind `totalFiles == 0` the final `return nil` of SendManifestMultiStream " +
+			"must lie behind a received value that is looked at (a record, an error, an `ok`), not behind a select whose every clause merely ends the wait - today it ends on any end of the control stream, on five seconds, on cancellation: " +
+			"a receiver that could not create a directory fails, and the sender says success",
+		Run: runEmptyTreeConfirmed,
+	})
+}
+
+func runEmptyTreeConfirmed(c *Ctx) {
+	p := c.P
+	f := p.Func("transfer.SendManifestMultiStream")
+	if f == nil {
+		c.MissingAnchor("transfer.SendManifestMultiStream")
+		return
+	}
+	info := f.Info()
+	// the last `if totalFiles == 0 { ... }` directly in the body
+	var last *ast.IfStmt
+	for _, st := range f.Body.List {
+		is, ok := st.(*ast.IfStmt)
+		if !ok {
+			continue
+		}
+		if be, ok := ast.Unparen(is.Cond).(*ast.BinaryExpr); ok && be.Op == token.EQL && types.ExprString(be.X) == "totalFiles" {
+			if v, ok := constInt(info, be.Y); ok && v == 0 {
+				last = is
+			}
+		}
+	}
+	if last == nil {
+		c.Unknown("empty-tree/transfer.SendManifestMultiStream", f.Pos(), "cannot find the `if totalFiles == 0 { ... }` step in front of the sender's successful return")
+		return
+	}
+	// confirmed: some receive in the block binds a value that is used in a condition of the block, and a failing outcome returns an error
+	confirmed := false
+	ast.Inspect(last.Body, func(m ast.Node) bool {
+		cc, ok := m.(*ast.CommClause)
+		if !ok {
+			return true
+		}
+		as, ok := cc.Comm.(*ast.AssignStmt)
+		if !ok || len(as.Lhs) == 0 {
+			return true
+		}
+		bound := ObjOf(info, as.Lhs[0])
+		if bound == nil {
+			return true
+		}
+		for _, st := range cc.Body {
+			ast.Inspect(st, func(k ast.Node) bool {
+				if is, ok := k.(*ast.IfStmt); ok {
+					uses := false
+					ast.Inspect(is.Cond, func(x ast.Node) bool {
+						if id, ok := x.(*ast.Ident); ok && info.ObjectOf(id) == bound {
+							uses = true
+						}
+						return true
+					})
+					if uses {
+						ast.Inspect(is.Body, func(x ast.Node) bool {
+							if rs, ok := x.(*ast.ReturnStmt); ok && len(rs.Results) == 1 && types.ExprString(rs.Results[0]) != "nil" {
+								confirmed = true
+							}
+							return true
+						})
+					}
+				}
+				return true
+			})
+		}
+		return true
+	})
+	c.Check(confirmed, "empty-tree/transfer.SendManifestMultiStream", last.Pos(), "success for a tree without files rests on something the receiver sent",
+		"behind `totalFiles == 0` SendManifestMultiStream returns nil whatever ended its wait (the receiver's end of the control stream - the same on success and failure -, five seconds, cancellation): "+
+			"for a tree of directories only, a receiver that could not create one of them reports failure while the sender reports success")
 }
